@@ -2601,6 +2601,166 @@ run_http(void *arg)
 	vh_fini();
 }
 
+
+// =====================================================================================
+// (c3) several requests on one persistent connection: every sequence of 2 (quick) / 3 (thorough)
+// requests over an alphabet that includes requests the server answers itself (unknown path, body
+// larger than the handler accepts) and requests with a body nobody collects - each request is
+// answered as if it were alone on the connection, sent in lock-step or all in one write
+// =====================================================================================
+enum { KQ_GET, KQ_POST, KQ_POST404, KQ_POSTNB, KQ_POST413, KQ_GET404, KQ_N };
+static const struct {
+	const char *name, *req;
+	int         st;
+	const char *body;  // response body of a 200 (set by the handler)
+	int         calls; // which handler runs: 0 none, 1 /c16, 2 /nobody, 3 /small
+	const char *hbody; // body the handler must see
+} KQ[KQ_N] = {
+	{ "GET", "GET /c16 HTTP/1.1\r\nHost: h\r\n\r\n", 200, "ok", 1, "" },
+	{ "POST", "POST /c16 HTTP/1.1\r\nHost: h\r\nContent-Length: 5\r\n\r\nhello", 200, "ok", 1, "hello" },
+	{ "POST-unknown-path", "POST /missing HTTP/1.1\r\nHost: h\r\nContent-Length: 7\r\n\r\nGET /c1", 404, NULL, 0, "" },
+	{ "POST-body-not-collected", "POST /nobody HTTP/1.1\r\nHost: h\r\nContent-Length: 6\r\n\r\nGET /n", 200, "nb", 2, "" },
+	{ "POST-body-too-large", "POST /small HTTP/1.1\r\nHost: h\r\nContent-Length: 9\r\n\r\n123456789", 413, NULL, 0, "" },
+	{ "GET-unknown-path", "GET /missing HTTP/1.1\r\nHost: h\r\n\r\n", 404, NULL, 0, "" },
+};
+static struct {
+	int  n;
+	int  which[8];
+	char body[8][16];
+	size_t blen[8];
+} KS;
+
+static void
+kq_cb(nng_http *conn, void *arg, nng_aio *aio)
+{
+	int    which = (int) (intptr_t) arg;
+	void  *b     = NULL;
+	size_t l     = 0;
+	nng_http_get_body(conn, &b, &l);
+	if (KS.n < 8) {
+		KS.which[KS.n] = which;
+		KS.blen[KS.n]  = l;
+		memcpy(KS.body[KS.n], b, l < 16 ? l : 16);
+		KS.n++;
+	}
+	nng_http_set_status(conn, NNG_HTTP_STATUS_OK, NULL);
+	int rv = nng_http_copy_body(conn, which == 2 ? "nb" : "ok", 2);
+	nng_aio_finish(aio, rv);
+}
+
+static void
+run_httpseq(void *arg)
+{
+	int depth = (int) (intptr_t) arg;
+	g_sfx           = "";
+	vs_tcp_grace_us = 1500;
+	vh_init(0);
+	nng_url          *u;
+	nng_http_server  *srv;
+	nng_http_handler *h1, *h2, *h3;
+	int               port = 0;
+	VH_OK(nng_url_parse(&u, "http://127.0.0.1:0"));
+	VH_OK(nng_http_server_hold(&srv, u));
+	VH_OK(nng_http_handler_alloc(&h1, "/c16", kq_cb));
+	nng_http_handler_set_method(h1, NULL);
+	nng_http_handler_set_data(h1, (void *) (intptr_t) 1, NULL);
+	VH_OK(nng_http_server_add_handler(srv, h1));
+	VH_OK(nng_http_handler_alloc(&h2, "/nobody", kq_cb));
+	nng_http_handler_set_method(h2, NULL);
+	nng_http_handler_collect_body(h2, false, 0);
+	nng_http_handler_set_data(h2, (void *) (intptr_t) 2, NULL);
+	VH_OK(nng_http_server_add_handler(srv, h2));
+	VH_OK(nng_http_handler_alloc(&h3, "/small", kq_cb));
+	nng_http_handler_set_method(h3, NULL);
+	nng_http_handler_collect_body(h3, true, 4);
+	nng_http_handler_set_data(h3, (void *) (intptr_t) 3, NULL);
+	VH_OK(nng_http_server_add_handler(srv, h3));
+	VH_OK(nng_http_server_start(srv));
+	VH_OK(nng_http_server_get_port(srv, &port));
+	vs_settle();
+	int  seq[4], pipelined = vs_choose(VK_ENV, 2);
+	char hist[120] = "";
+	for (int i = 0; i < depth; i++) {
+		seq[i] = vs_choose(VK_ENV, KQ_N);
+		snprintf(hist + strlen(hist), sizeof(hist) - strlen(hist), "%s%s", i ? ", " : "",
+		    KQ[seq[i]].name);
+	}
+	vs_log("%s: %s", pipelined ? "one write" : "lock-step", hist);
+	rconn c;
+	char  why[200] = "";
+	rc_open(&c, port);
+	memset(&KS, 0, sizeof(KS));
+	vs_case();
+	vs_nontrivial();
+	if (pipelined) {
+		char   all[1200];
+		size_t n = 0;
+		for (int i = 0; i < depth; i++)
+			n += (size_t) snprintf(all + n, sizeof(all) - n, "%s", KQ[seq[i]].req);
+		rc_write_cut(&c, (uint8_t *) all, n, -1, -1);
+	}
+	int want_calls = 0, closed = 0;
+	for (int i = 0; i < depth; i++) {
+		const char *sg = pipelined ? "C16:http:persistent:pipelined" : "C16:http:persistent";
+		size_t      bl = 0;
+		if (!pipelined)
+			rc_write_cut(&c, (const uint8_t *) KQ[seq[i]].req, strlen(KQ[seq[i]].req), -1, -1);
+		int st = http_read_response(&c, i, 300, 1, &bl, why, sizeof(why));
+		if (st == -2)
+			CFAIL("C16:http:emitted-malformed", "[%s] answer %d malformed (%s): \"%s\"", hist, i,
+			    why, showb(c.rb, c.rl < 120 ? c.rl : 120));
+		if (st <= 0) {
+			// the server may end a connection after an error answer ("Connection: close"); it may
+			// not leave it open and silent, and it may not do so after a success
+			if (st == -1 && closed)
+				break;
+			CFAIL(sg, "[%s] request %d (%s): %s", hist, i, KQ[seq[i]].name,
+			    st == -1 ? "connection closed without an answer"
+			             : "no answer within 300 ms on an open connection");
+		}
+		if (st != KQ[seq[i]].st)
+			CFAIL(sg, "[%s] request %d (%s) answered %d, alone on a connection it is answered %d",
+			    hist, i, KQ[seq[i]].name, st, KQ[seq[i]].st);
+		if (KQ[seq[i]].body &&
+		    (bl != strlen(KQ[seq[i]].body) || memcmp(c.rb, KQ[seq[i]].body, bl) != 0))
+			CFAIL(sg, "[%s] request %d (%s): 200 with body \"%s\" (%zu bytes), the handler set \"%s\"",
+			    hist, i, KQ[seq[i]].name, showb(c.rb, bl < 40 ? bl : 40), bl, KQ[seq[i]].body);
+		rc_consume(&c, bl);
+		if (KQ[seq[i]].calls) {
+			// (when everything went out in one write later requests may already have been handled)
+			if ((pipelined ? KS.n < want_calls + 1 : KS.n != want_calls + 1) ||
+			    KS.which[want_calls] != KQ[seq[i]].calls)
+				CFAIL(sg, "[%s] request %d (%s): %d handler calls so far (last: handler %d), expected "
+				          "%d with handler %d last",
+				    hist, i, KQ[seq[i]].name, KS.n, KS.n ? KS.which[KS.n - 1] : 0, want_calls + 1,
+				    KQ[seq[i]].calls);
+			if (KS.blen[want_calls] != strlen(KQ[seq[i]].hbody) ||
+			    memcmp(KS.body[want_calls], KQ[seq[i]].hbody, KS.blen[want_calls]) != 0)
+				CFAIL(sg, "[%s] request %d (%s): the handler saw a body of %zu bytes \"%s\"", hist, i,
+				    KQ[seq[i]].name, KS.blen[want_calls],
+				    showb((uint8_t *) KS.body[want_calls], KS.blen[want_calls] < 16 ? KS.blen[want_calls] : 16));
+			want_calls++;
+		} else if (!pipelined && KS.n != want_calls)
+			CFAIL("C16:http:handler-saw-malformed",
+			    "[%s] request %d (%s) is answered by the server itself, yet a handler ran (handler %d, "
+			    "body %zu bytes): body bytes were taken for a request",
+			    hist, i, KQ[seq[i]].name, KS.which[KS.n - 1], KS.blen[KS.n - 1]);
+		closed = st >= 400; // only after an error answer may the server hang up
+	}
+	if (KS.n != want_calls)
+		CFAIL("C16:http:handler-saw-malformed", "[%s] %d handler calls for %d handled requests", hist,
+		    KS.n, want_calls);
+done:
+	g_sfx = "";
+	rc_close(&c);
+	vs_outcome("%s%s x%d", pipelined ? "P:" : "L:", hist, g_nfail);
+	nng_http_server_stop(srv);
+	nng_http_server_release(srv);
+	nng_url_free(u);
+	batch_finish();
+	vh_fini();
+}
+
 // =====================================================================================
 // (c2) large request heads: the same head, larger than the connection's read buffer but made of
 // ordinary lines, under segmentations that fill the buffer differently
@@ -3624,6 +3784,7 @@ main(int argc, char **argv)
 	explore("http-request-line", run_http, (void *) 1, 15);
 	explore("http-pipelined", run_http, (void *) 2, 15);
 	explore("http-large-head", run_httpbig, NULL, 15);
+	explore(T ? "http-persistent-d3" : "http-persistent-d2", run_httpseq, (void *) (intptr_t) (T ? 3 : 2), 15);
 	// ---- (d) ----
 	build_httpc_cases(T);
 	explore("httpc-transact", run_httpc, NULL, 20);
